@@ -95,6 +95,7 @@ fixed("D9b3", ["C08", "C16"], "a string ending in a backslash at end of input: U
 fixed("D9c1", ["C08"], "`return end` indexed an empty token slice", "expression parser indexed past", comp("set f to transform return end"))
 fixed("D9c2", ["C08"], "`return (1 end`: nil expression with nil error", "expression parser indexed past", comp("set f to transform return (1 end"))
 fixed("D9c3", ["C08"], "`return 1 +` indexed past the token slice", "expression parser indexed past", comp("set f to transform return 1 + end"))
+fixed("D24", ["C08"], "`set f to transform return 1 )` (stray ')' ending the last expression of the input) indexed past the token list; found by a seeding sub-agent while probing, missed by the quick tier", "stray ')' ending a process expression", comp("set f to transform return 1 )"))
 fixed("D9c4", ["C08"], "`named` without a name returned a nil loop and no error", "`named` without a name", comp("find all at least 1 'a' named"))
 fixed("D9d1", ["C08"], "@/a{2/ restarted the regex parser at index 0 (stack overflow)", "regex sub-parser indexed past", comp("find all @/a{2/"))
 fixed("D9d2", ["C08"], "@/(/ index out of range", "regex sub-parser indexed past", comp("find all @/(/"))
